@@ -287,7 +287,7 @@ func (g *c07gen) source(top *lty, space string) string {
 		}
 		b.WriteString("}\n")
 	}
-	fmt.Fprintf(&b, "@group(0) @binding(0) var<%s> buf: %s;\n", space, top.name)
+	fmt.Fprintf(&b, "@group(0) @binding(0) var<%s> buf: %s;\n", space, top.wgsl())
 	b.WriteString("@group(0) @binding(1) var<storage, read_write> sink: array<u32>;\n")
 	b.WriteString("@compute @workgroup_size(1) fn main() {\n  sink[0] = arrayLength(&sink);\n")
 	for _, p := range g.paths {
@@ -373,6 +373,29 @@ func cmdC07(c *ctx) {
 		g := &c07gen{c: c, f16: c.chance(0.3)}
 		depth := 1 + c.rng.Intn(3)
 		top := g.strct(depth, true)
+		if c.chance(0.25) {
+			// a global whose store type is not a struct (SPIR-V wraps it in a synthetic Block struct): a matrix,
+			// nested arrays of matrices / vectors / scalars
+			g.structs = nil
+			var el *lty
+			switch c.rng.Intn(4) {
+			case 0, 1:
+				sc := "f32"
+				if g.f16 && c.chance(0.6) {
+					sc = "f16"
+				}
+				el = &lty{kind: "mat", c: 2 + c.rng.Intn(3), r: 2 + c.rng.Intn(3), sc: sc}
+			case 2:
+				el = &lty{kind: "vec", n: 2 + c.rng.Intn(3), sc: g.scalar(true)}
+			default:
+				el = g.ty(1, false)
+			}
+			for k := c.rng.Intn(3); k > 0; k-- {
+				el = &lty{kind: "arr", elem: el, count: 1 + c.rng.Intn(4)}
+			}
+			top = el
+			c.count("non-struct-top")
+		}
 		space := "storage, read_write"
 		np := 1 + c.rng.Intn(8)
 		ps := ""
@@ -464,7 +487,7 @@ var (
 	mslStructRe  = regexp.MustCompile(`(?s)struct (\w+) \{(.*?)\n\};`)
 	mslFieldRe   = regexp.MustCompile(`^\s*([\w:]+(?:<[\w:, ]+>)?) (\w+)(?:\[(\d+)\])?;$`)
 	mslTypedefRe = regexp.MustCompile(`(?m)^typedef ([\w:]+) (\w+)\[(\d+)\];$`)
-	mslBufRe     = regexp.MustCompile(`device (\w+)& buf\b`)
+	mslBufRe     = regexp.MustCompile(`device ([\w:]+)& buf\b`)
 )
 
 // mslDecls: the struct/typedef declarations of the MSL text as an S-expression
